@@ -572,8 +572,14 @@ Definition stF : state :=
 Lemma open_far : open Px (c_fs (drop_log st_ex)) (Some plan_far) PNothing [] = OpenOk stF.
 Proof. vm_compute. reflexivity. Qed.
 
+(* R2: both plans are reportable (not site Read with kind UnexpectedEof) *)
+Lemma plan_far_reportable : reportable plan_far.
+Proof. intros [_ H]. discriminate H. Qed.
+Lemma plan_hit_reportable : reportable plan_hit.
+Proof. intros [H _]. discriminate H. Qed.
+
 Example C11_ok_means_not_fired_inst : ~ fired plan_far (w_ctx (s_wr stF)).
-Proof. exact (PropC11.C11_ok_means_not_fired Px plan_far (c_fs (drop_log st_ex)) PNothing [] stF eq_refl open_far). Qed.
+Proof. exact (PropC11.C11_ok_means_not_fired Px plan_far plan_far_reportable (c_fs (drop_log st_ex)) PNothing [] stF eq_refl open_far). Qed.
 
 Example C11_fired_is_io_inst :
   match open Px (c_fs (drop_log st_ex)) (Some plan_hit) PNothing [] with
@@ -582,7 +588,7 @@ Example C11_fired_is_io_inst :
   | OpenCorruption c => ~ fired plan_hit c
   | OpenFuel _ => False
   end.
-Proof. exact (PropC11.C11_fired_is_io Px plan_hit (c_fs (drop_log st_ex)) PNothing [] eq_refl Px_BS_lo). Qed.
+Proof. exact (PropC11.C11_fired_is_io Px plan_hit plan_hit_reportable (c_fs (drop_log st_ex)) PNothing [] eq_refl Px_BS_lo). Qed.
 
 Example C11_fired_computed :
   match open Px (c_fs (drop_log st_ex)) (Some plan_hit) PNothing [] with
@@ -603,4 +609,70 @@ Lemma open_cor : open Px fs_cor (Some plan_far) PNothing [] = OpenCorruption c_c
 Proof. vm_compute. reflexivity. Qed.
 
 Example C11_corruption_means_not_fired_inst : ~ fired plan_far c_cor.
-Proof. exact (PropC11.C11_corruption_means_not_fired Px plan_far fs_cor PNothing [] c_cor eq_refl open_cor). Qed.
+Proof. exact (PropC11.C11_corruption_means_not_fired Px plan_far plan_far_reportable fs_cor PNothing [] c_cor eq_refl open_cor). Qed.
+
+(* R2: the plans excluded from C11 (site Read, kind UnexpectedEof). The directory of st_ex has
+   three files of two blocks; without a fault open reads 8 times and recovers both queues.
+   - plan_abs fires at the second read (file 4, block 1): read_block reports "no more blocks in
+     this file", the rest of file 4 is skipped, open returns a log although the fault has fired:
+     queue a is missing, and the GC that ends open unlinks file 4;
+   - the same plan with another kind is reported (C11_fired_is_io);
+   - plan_abs0 fires at the first read of recovery, which uses `?`: reported as UnexpectedEof,
+     the one case left by C11_absorbed_eof_only_first_read. *)
+Definition plan_abs : fplan := mkPlan SRead 1 false IoUnexpectedEof.
+Definition plan_abs_other : fplan := mkPlan SRead 1 false IoOther.
+Definition plan_abs0 : fplan := mkPlan SRead 0 false IoUnexpectedEof.
+
+Example plan_abs_not_reportable : absorbed plan_abs /\ ~ reportable plan_abs.
+Proof. split; [split; reflexivity|]. intros H. apply H. split; reflexivity. Qed.
+
+Example C11_absorbed_computed :
+  match open Px (c_fs (drop_log st_ex)) None PNothing [],
+        open Px (c_fs (drop_log st_ex)) (Some plan_abs) PNothing [] with
+  | OpenOk s0, OpenOk s =>
+      abs_qs (s_qs s0) = [(qA, ([(6, pay "v"%byte)], 7)); (qB, ([(0, pay "w"%byte)], 1))] /\
+      c_nread (w_ctx (s_wr s0)) = 8 /\
+      fired plan_abs (w_ctx (s_wr s)) /\
+      abs_qs (s_qs s) = [(qB, ([(0, pay "w"%byte)], 1))] /\
+      c_nread (w_ctx (s_wr s)) = 7 /\
+      In (EvRead (filename 4) 32 32 false) (c_ev (w_ctx (s_wr s))) /\
+      In (EvUnlink (filename 4)) (c_ev (w_ctx (s_wr s))) /\
+      w_files (s_wr s0) = [4; 5; 6] /\ w_files (s_wr s) = [5; 6]
+  | _, _ => False
+  end.
+Proof. vm_compute. repeat split; try reflexivity; tauto. Qed.
+
+(* the conclusion of C11_fired_is_io is false for plan_abs *)
+Example C11_fired_is_io_fails_absorbed :
+  ~ match open Px (c_fs (drop_log st_ex)) (Some plan_abs) PNothing [] with
+    | OpenOk st => ~ fired plan_abs (w_ctx (s_wr st))
+    | OpenIo _ _ => True
+    | OpenCorruption c => ~ fired plan_abs c
+    | OpenFuel _ => False
+    end.
+Proof. vm_compute. intros H. apply H. reflexivity. Qed.
+
+Example C11_other_kind_reported :
+  match open Px (c_fs (drop_log st_ex)) (Some plan_abs_other) PNothing [] with
+  | OpenIo IoOther c => fired plan_abs_other c
+  | _ => False
+  end.
+Proof. vm_compute. reflexivity. Qed.
+
+Example C11_absorbed_first_read_computed :
+  match open Px (c_fs (drop_log st_ex)) (Some plan_abs0) PNothing [] with
+  | OpenIo IoUnexpectedEof c => fired plan_abs0 c /\ c_nread c = 1
+  | _ => False
+  end.
+Proof. vm_compute. split; reflexivity. Qed.
+
+Example C11_absorbed_eof_only_first_read_inst :
+  exists c, rd_open Px (ctx_init (c_fs (drop_log st_ex)) (Some plan_abs0)) = (c, Err IoUnexpectedEof).
+Proof.
+  destruct (open Px (c_fs (drop_log st_ex)) (Some plan_abs0) PNothing []) as [s|e c|c|c] eqn:E;
+    try (exfalso; revert E; vm_compute; discriminate).
+  assert (He : e = IoUnexpectedEof) by (revert E; vm_compute; intros H; inversion H; reflexivity).
+  subst e. exists c.
+  exact (PropC11.C11_absorbed_eof_only_first_read Px plan_abs0 (conj eq_refl eq_refl)
+           (c_fs (drop_log st_ex)) PNothing [] c E).
+Qed.
